@@ -171,7 +171,7 @@ def check_cfg(ctx, fx, cfg):
             calls = [s for s in sk if s["k"] == "call"]
             bad = [s for s in sk if s["k"] in ("agg", "store", "ret", "yield", "unknown")] + [s for s in calls if s["t"].get("callee") != "context::StopNotifier::notify"]
             ctx.require(len(calls) >= 1 and not bad, "R02.3", inst + ":notifier-use", "the stop notifier must be consumed only by notify(): %s" % [(s["k"], s.get("t", {}).get("callee")) for s in bad], fn=f["def"], site=f["loc"])
-    run_loops(ctx, fx, "R02.3", {"L3", "L6", "L11", "L13"})
+    run_loops(ctx, fx, "R02.3", {"L3", "L6", "L11b"})
     # R02.6 join resolves: the join future takes the runtime handle out of its slot under the lock and releases the lock
     # before it waits — an abandoned earlier join cannot block a later join / consume (shared with C17)
     from props import c17
